@@ -3,32 +3,55 @@ import JL.Lemmas.TieC
 /-! tie: `substr`, as translated from the crate's current source, is the model's function - for every input -/
 namespace JL.Tie
 open JL JL.Lemmas.TieC
+set_option linter.unusedSimpArgs false  -- which of the listed facts are used depends on how the source is spelled
 
-/- Both proofs: first rewrite the `usize` arithmetic on the `Rs` calls themselves (`TieC`: `checked_sub(..).unwrap_or(0)` is
-truncated subtraction, …), then unfold the rest with `simp [rs]`, split on the shapes of the operands and on the signs. -/
+/- Both proofs: first rewrite the `usize` arithmetic on the `Rs` calls themselves (`TieC`: `checked_sub(..).unwrap_or(0)` and
+`saturating_sub` are truncated subtraction, …), then make the model's own case analysis (kinds of the operands, whether
+`as_i64` succeeds, signs of index and limit) with named constructors, and close every case with the same `simp` that unfolds
+the remaining library calls and uses the facts of the case. -/
+
+/-- the `usize` arithmetic of `substr`, to be rewritten before anything is unfolded -/
+syntax "substr_arith" : tactic
+macro_rules
+  | `(tactic| substr_arith) => `(tactic|
+      simp only [unwrap_checked_sub, saturating_sub_eq, unwrap_checked_add, min_nat, count_eq, lt_int, ge_int, gt_int, le_int, try_into_eq,
+        unsigned_abs_eq])
 
 theorem substr2 (s i : Json) : Gen.substr [s, i] = StrOp.substr s i none := by
   unfold Gen.substr StrOp.substr
-  simp only [unwrap_checked_sub, unwrap_checked_add, min_nat, count_eq, lt_int, try_into_eq, unsigned_abs_eq]
-  cases s <;> simp [rs, StrOp.intArg]
-  cases i <;> simp
-  rename_i str n
-  cases n.asI64 <;> simp [StrOp.substrBounds, sub_ite]
-  rename_i idx
-  by_cases h : idx < 0 <;> simp [h]
+  substr_arith
+  cases s with
+  | str str =>
+      cases i with
+      | num n =>
+          cases hn : n.asI64 with
+          | none => simp [rs, StrOp.intArg, hn]
+          | some idx =>
+              rcases sign_cases idx with ⟨h, h0⟩ | ⟨h, h0⟩ <;> simp [rs, StrOp.intArg, substrBounds_eq, hn, h, h0]
+      | _ => simp [rs, StrOp.intArg]
+  | _ => simp [rs, StrOp.intArg]
 
 theorem substr3 (s i l : Json) : Gen.substr [s, i, l] = StrOp.substr s i (some l) := by
   unfold Gen.substr StrOp.substr
-  simp only [unwrap_checked_sub, unwrap_checked_add, min_nat, count_eq, lt_int, try_into_eq, unsigned_abs_eq]
-  cases s <;> simp [rs, StrOp.intArg]
-  cases i <;> simp
-  rename_i str n
-  cases n.asI64 <;> simp
-  rename_i idx
-  cases l <;> simp
-  rename_i m
-  cases m.asI64 <;> simp [StrOp.substrBounds, sub_ite]
-  rename_i lim
-  by_cases h : idx < 0 <;> by_cases h' : lim < 0 <;> simp [h, h']
+  substr_arith
+  cases s with
+  | str str =>
+      cases i with
+      | num n =>
+          cases hn : n.asI64 with
+          | none => simp [rs, StrOp.intArg, hn]
+          | some idx =>
+              cases l with
+              | num m =>
+                  cases hm : m.asI64 with
+                  | none => simp [rs, StrOp.intArg, hn, hm]
+                  | some lim =>
+                      rcases sign_cases idx with ⟨h, h0⟩ | ⟨h, h0⟩ <;> rcases sign_cases lim with ⟨h', h0'⟩ | ⟨h', h0'⟩ <;>
+                        simp [rs, StrOp.intArg, substrBounds_eq, hn, hm, h, h0, h', h0'] <;>
+                        -- (`checked_add` taken apart by a `match` instead of `unwrap_or`: split on whether it overflows)
+                        (try (split <;> simp_all <;> (try split) <;> omega))
+              | _ => simp [rs, StrOp.intArg, hn]
+      | _ => simp [rs, StrOp.intArg]
+  | _ => simp [rs, StrOp.intArg]
 
 end JL.Tie
